@@ -119,6 +119,15 @@ def handle (j : Json) : Except String Json := do
       Json.arr (t.indexes.map fun i => encR (Sql.renderIndex t i)).toArray
     pure (Json.mkObj [("enums", .arr enums.toArray), ("columns", .arr cols.toArray),
                       ("indexes", .arr idx.toArray)])
+  | "readsql" =>
+    let t ← strF j "text"
+    let col (c : C03.ColDesc) : Json := Json.mkObj [("name", jstr c.name), ("type", jstr c.type), ("pk", .bool c.pk),
+      ("autoinc", .bool c.autoinc), ("unique", .bool c.unique), ("not_null", .bool c.notNull), ("default", jopt c.default)]
+    let tab (d : C03.TabDesc) : Json := Json.mkObj [("qname", jstr d.qname), ("cols", .arr (d.cols.map col).toArray),
+      ("key", match d.key with | some ns => .arr (ns.map jstr).toArray | none => .null)]
+    pure (Json.mkObj [("ok", match C03.readScript t with
+      | some ds => .arr (ds.map tab).toArray
+      | none => .null)])
   | "sql_refs" =>
     let d ← Codec.db (← j.getObjVal? "db")
     pure (Json.mkObj [("refs", .arr (d.refs.map fun r => encR (Sql.renderRefTop d r)).toArray)])
